@@ -30,6 +30,12 @@ def cases(tier, seed):
     from vf import families
     for spec in families.cyc(tier):      # nested / overlapping cycles entered at different depths
         yield dict(spec=spec)
+    for spec in families.inc(tier):      # incompatibility below an option with a nested choice (marker / rollback paths)
+        yield dict(spec=spec)
+    for spec in families.unr(tier):      # non-derivable (cyclic) parts referenced by incompatibility constraints
+        yield dict(spec=spec)
+    for spec in families.inc2(tier):     # one node in two incompatibility constraints, derived partners
+        yield dict(spec=spec)
     for spec in families.diamond(tier):  # reconverging derivation branches below an option
         yield dict(spec=spec)
 
